@@ -199,6 +199,10 @@ pub(crate) struct Fx {
     root: PathBuf,
     pub(crate) pairing: Arc<PairingStore>,
     cmds: Arc<Mutex<Vec<String>>>,
+    /// where the endpoint's resource commands go besides the log: a real resource thread, when a stage has one
+    pub(crate) forward: Arc<Mutex<Option<Box<dyn Fn(ResourceCommand) + Send>>>>,
+    /// the web server in front of the same endpoint state (started at the first request sent through it)
+    web: Option<(trust_runtime::web::WebServer, String)>,
     alarm_id: String,
     file_id: u32,
 }
@@ -265,8 +269,9 @@ impl Fx {
         let snap = Arc::new(Mutex::new(snapshot_of(&h)));
         let (resource, cmd_rx) = ResourceControl::stub(StdClock::new());
         let cmds = Arc::new(Mutex::new(Vec::<String>::new()));
+        let forward: Arc<Mutex<Option<Box<dyn Fn(ResourceCommand) + Send>>>> = Arc::new(Mutex::new(None));
         {
-            let (cmds, snap, metadata) = (cmds.clone(), snap.clone(), metadata.clone());
+            let (cmds, snap, metadata, forward) = (cmds.clone(), snap.clone(), metadata.clone(), forward.clone());
             std::thread::Builder::new()
                 .name("tpv-stub".into())
                 .spawn(move || {
@@ -285,6 +290,9 @@ impl Fx {
                             other => {
                                 let text = format!("{other:?}");
                                 cmds.lock().unwrap().push(text.chars().take(120).collect());
+                                if let Some(f) = forward.lock().unwrap().as_ref() {
+                                    f(other);
+                                }
                             }
                         }
                     }
@@ -320,7 +328,7 @@ impl Fx {
         });
         let sock = base.join("c.sock");
         let server = ControlServer::start(ControlEndpoint::Unix(sock.clone()), state.clone()).unwrap_or_else(|e| panic!("control server: {e}"));
-        let mut fx = Fx { h, state, _server: server, sock, conn: None, root, pairing, cmds, alarm_id: String::new(), file_id };
+        let mut fx = Fx { h, state, _server: server, sock, conn: None, root, pairing, cmds, forward, web: None, alarm_id: String::new(), file_id };
         // raise the alarm of the fixture program (reads do that) so that an acknowledgement has something to act on
         {
             let st = fx.state.clone();
@@ -339,6 +347,11 @@ impl Fx {
         fx
     }
 
+    /// resource commands the endpoint has sent so far (as logged by the stub that receives them)
+    pub(crate) fn commands(&self) -> Vec<String> {
+        self.cmds.lock().unwrap().clone()
+    }
+
     pub(crate) fn control_state(&self) -> Arc<ControlState> {
         self.state.clone()
     }
@@ -354,6 +367,7 @@ impl Fx {
         let server = ControlServer::start(ControlEndpoint::Unix(sock.clone()), state.clone()).unwrap_or_else(|e| panic!("control server: {e}"));
         let _ = std::fs::remove_file(&self.sock);
         self.conn = None;
+        self.web = None;
         self.state = state;
         self._server = server;
         self.sock = sock;
@@ -451,6 +465,79 @@ impl Fx {
                     self.conn = None;
                     return Answer::Closed;
                 }
+            }
+        }
+    }
+
+    /// The same request through the web server's `POST /api/control` (web.rs): the credential travels as
+    /// `X-Trust-Token` as well as in the line.  Web auth mode is `token` when the endpoint has an auth token
+    /// configured and `local` otherwise, which makes the web layer demand exactly what the endpoint demands.
+    pub(crate) fn ask_http(&mut self, line: &str, header: Option<&str>, token_mode: bool) -> Answer {
+        use std::io::Read;
+        if self.web.is_none() {
+            for _ in 0..20 {
+                let port = std::net::TcpListener::bind("127.0.0.1:0").and_then(|l| l.local_addr()).map(|a| a.port()).expect("loopback port");
+                let addr = format!("127.0.0.1:{port}");
+                let cfg = trust_runtime::config::WebConfig { enabled: true, listen: addr.as_str().into(),
+                    auth: if token_mode { trust_runtime::config::WebAuthMode::Token } else { trust_runtime::config::WebAuthMode::Local }, tls: false };
+                if let Ok(server) = trust_runtime::web::start_web_server(&cfg, self.state.clone(), None, Some(self.pairing.clone()), None, None) {
+                    self.web = Some((server, addr));
+                    break;
+                }
+            }
+        }
+        let addr = self.web.as_ref().expect("TOOL: web server did not start").1.clone();
+        let mut stream = None;
+        for _ in 0..200 {
+            if let Ok(s) = std::net::TcpStream::connect(&addr) {
+                stream = Some(s);
+                break;
+            }
+            std::thread::sleep(StdDuration::from_millis(5));
+        }
+        let Some(mut s) = stream else { return Answer::Closed };
+        let mut head = format!("POST /api/control HTTP/1.0\r\nHost: {addr}\r\nContent-Type: application/json\r\nContent-Length: {}\r\n", line.len());
+        if let Some(t) = header {
+            head.push_str(&format!("X-Trust-Token: {t}\r\n"));
+        }
+        head.push_str("\r\n");
+        if s.write_all(head.as_bytes()).is_err() || s.write_all(line.as_bytes()).is_err() {
+            return Answer::Closed;
+        }
+        let _ = s.set_read_timeout(Some(StdDuration::from_millis(100)));
+        let mut raw: Vec<u8> = Vec::new();
+        let mut buf = [0u8; 8192];
+        let started = std::time::Instant::now();
+        let mut streak: BTreeMap<&'static str, u32> = BTreeMap::new();
+        loop {
+            match s.read(&mut buf) {
+                Ok(0) => break,
+                Ok(n) => raw.extend_from_slice(&buf[..n]),
+                Err(e) if matches!(e.kind(), std::io::ErrorKind::WouldBlock | std::io::ErrorKind::TimedOut | std::io::ErrorKind::Interrupted) => {
+                    let now_held = self.held_locks();
+                    streak.retain(|k, _| now_held.contains(k));
+                    for k in now_held {
+                        *streak.entry(k).or_insert(0) += 1;
+                    }
+                    let wedged: Vec<&'static str> = streak.iter().filter(|(_, n)| **n >= 9).map(|(k, _)| *k).collect();
+                    if !wedged.is_empty() && started.elapsed() >= StdDuration::from_millis(1200) {
+                        self.web = None; // its only thread is wedged
+                        return Answer::Hang(wedged.iter().map(|s| s.to_string()).collect());
+                    }
+                    if started.elapsed() >= StdDuration::from_secs(90) {
+                        eprintln!("ctrlauth: no http reply within 90 s and no lock held -- giving up (tool-level timeout)");
+                        std::process::exit(2);
+                    }
+                }
+                Err(_) => break,
+            }
+        }
+        let text = String::from_utf8_lossy(&raw).to_string();
+        match text.split_once("\r\n\r\n") {
+            Some((h, body)) if h.starts_with("HTTP/") => Answer::Line(body.trim_end().to_string()),
+            _ => {
+                self.web = None; // the serving thread died before answering
+                Answer::Closed
             }
         }
     }
@@ -707,7 +794,8 @@ impl Runner {
         let alarm = fx.alarm_id.clone();
         let line = render(template, cred, &code, &alarm);
         let p0 = panic_count();
-        let answer = fx.ask(&line);
+        let via_http = sc["http"] == json!(true);
+        let answer = if via_http { fx.ask_http(&line, cred_token(cred).as_deref(), cfg.token) } else { fx.ask(&line) };
         let hang: Vec<String> = match &answer {
             Answer::Hang(h) => h.clone(),
             _ => vec![],
@@ -748,7 +836,7 @@ impl Runner {
         changed.sort();
         changed.dedup();
         let ev = json!({
-            "a": "Req", "k": sc["k"], "t": sc["t"], "wf": sc["wf"], "c": cred, "cred": cred_json(cred),
+            "a": "Req", "k": sc["k"], "t": sc["t"], "wf": sc["wf"], "c": cred, "cred": cred_json(cred), "via": if via_http { "http" } else { "socket" },
             "reply": raw.is_some(), "json": reply.is_some() || raw.is_none(), "ok": ok,
             "hasData": has_result || !leaked.is_empty(), "leaked": leaked,
             "changed": changed, "panic": !panics.is_empty() || (raw.is_none() && hang.is_empty()), "panicMsg": panics.first().cloned().unwrap_or_default(),
